@@ -10,11 +10,18 @@
                exception's __context__/__cause__/__suppress_context__, names, the log of blocks,
                probes and __exit__ calls with heap snapshots) and same sys.exc_info() afterwards.
 
+   gen / exec_lab / run_lab (M_ExcLab) = the label level of the same generated code: gen mirrors
+               the label allocations and assignments of TryExceptStatNode / ExceptClauseNode /
+               TryFinallyStatNode / WithStatNode .generate_execution_code over the label state
+               cgs (error, return, break, continue label, counter); exec_lab dispatches on the
+               LABEL an exit jumps to.  tr g o = the jump that stands for outcome o under the
+               labels of g; wf g = the current labels were allocated before.
+
    FULL STATEMENT (not proved, hence the _partial names): the two theorems below without the
    hypothesis  no_with s = true,  i.e. also for programs containing with-blocks
    (SWith / WithTransform are in the model and exercised by the correspondence run only). *)
 From Coq Require Import List Bool.
-From CyVerif Require Import Model.M_Exc Proof.P_Exc.
+From CyVerif Require Import Model.M_Exc Model.M_ExcLab Proof.P_Exc Proof.P_ExcLab.
 Import ListNotations.
 
 (* all programs of the try/except/else/finally/loop/raise core, all calling contexts
@@ -81,6 +88,56 @@ Theorem C22_return_in_finally_swallows : forall fx sx body fin c e c1 c2,
   exec_sch fx sx (CFinally true body fin) c = (ORet, set_top (top c1) (set_cur (cur c1) c2)).
 Proof. exact return_in_finally_swallows. Qed.
 Print Assumptions C22_return_in_finally_swallows.
+
+(* ---- label / handler selection ----
+   every statement (with-blocks included), at every clause position (= every label state g the
+   enclosing statements can set up) and in every machine state: the label code generated for it
+   leaves by exactly the label standing for the outcome of the structural scheme -- the handler
+   set that is active at a position is the one the structure says *)
+Theorem C22_label_code_selects_scheme_continuation : forall fx sx s g c, wf g ->
+  exec_lab fx sx (fst (gen false s g)) c =
+  (tr g (fst (exec_sch fx sx s c)), snd (exec_sch fx sx s c)).
+Proof. exact gen_selects_scheme_continuation. Qed.
+Print Assumptions C22_label_code_selects_scheme_continuation.
+
+(* the label state after a statement is the one before it (only the counter grows) *)
+Theorem C22_label_state_restored : forall s g,
+  let g' := snd (gen false s g) in
+  g_err g' = g_err g /\ g_ret g' = g_ret g /\ g_brk g' = g_brk g /\ g_cont g' = g_cont g /\
+  g_next g <= g_next g'.
+Proof. exact gen_restores_labels. Qed.
+Print Assumptions C22_label_state_restored.
+
+(* whole functions: label level = structural scheme, for ALL programs *)
+Theorem C22_label_code_equals_scheme : forall fx sx s h t b,
+  run_lab false fx sx s h t b = run_sch fx sx s h t b.
+Proof. exact run_lab_eq_run_sch. Qed.
+Print Assumptions C22_label_code_equals_scheme.
+
+(* ... hence the continuation selected at the label level is CPython's (same fragment as above) *)
+Theorem C22_label_code_matches_cpython_partial : forall sx s h t b,
+  no_with s = true -> same_obs (run_ref s h t b) (run_lab false true sx s h t b).
+Proof. exact lab_matches_reference. Qed.
+Print Assumptions C22_label_code_matches_cpython_partial.
+
+(* exits taken in an else clause never reach the except clauses of the same statement *)
+Theorem C22_else_exits_bypass_own_handlers : forall fx sx body hs orelse g c c1 o c2,
+  wf g ->
+  exec_sch fx sx body c = (ONorm, c1) -> exec_sch fx sx orelse c1 = (o, c2) ->
+  o <> ONorm -> o <> OCrash ->
+  exec_lab fx sx (fst (gen false (CTry body hs orelse) g)) c =
+  (tr g o, set_top (if sx then top c else handled c) c2).
+Proof. exact else_exits_bypass_own_handlers. Qed.
+Print Assumptions C22_else_exits_bypass_own_handlers.
+
+(* the model depends on WHERE the error label is switched: generated with the switch after the
+   else clause, an else clause raising a class its own handler matches is swallowed *)
+Theorem C22_late_error_label_switch_refuted :
+  exists s h t b, no_with s = true /\
+    fst (run_lab true true true s h t b) = ONorm /\ fst (run_ref s h t b) = ORaise 0 /\
+    fst (run_lab false true true s h t b) = ORaise 0.
+Proof. exact late_switch_refuted. Qed.
+Print Assumptions C22_late_error_label_switch_refuted.
 
 (* the hypotheses are satisfiable on a non-trivial program: nested handlers, as-name, finally,
    chaining; both runs raise the same exception with the same context *)
